@@ -8,10 +8,10 @@
 #include <map>
 
 enum { SC_LOAD_RSA = 0, SC_LOAD_EC_ALL, SC_NEW_SESSIONS, SC_TLS12_RSA, SC_TLS12_ECDSA_CAUTH, SC_TLS11_ECDHE_RSA, SC_TLS12_RESUME_ID, SC_TLS12_RESUME_TICKET,
-       SC_TLS13_FULL, SC_TLS13_PSK_RESUME, SC_TLS13_CAUTH, SC_DTLS12_FRAG, SC_TLS12_PSK, SC_DATA_GROWTH, SC_TLS12_TICKET_REISSUE, SC_TLS13_HRR_SNI, SC_TLS12_EXT_LIST, SC_TLS13_EXT_LIST, SC_OCSP_REFRESH,
+       SC_TLS13_FULL, SC_TLS13_PSK_RESUME, SC_TLS13_CAUTH, SC_DTLS12_FRAG, SC_TLS12_PSK, SC_DATA_GROWTH, SC_TLS12_TICKET_REISSUE, SC_TLS13_HRR_SNI, SC_TLS12_EXT_LIST, SC_TLS13_EXT_LIST, SC_OCSP_REFRESH, SC_LOAD_PEM_BUNDLE,
        SC_NEG_UNKNOWN_CA_12, SC_NEG_UNKNOWN_CA_13, SC_NEG_BAD_SIG_12, SC_NEG_BAD_SIG_13, SC_NEG_FORGED_CERT_12, SC_NEG_FORGED_CERT_13, SC_NEG_FORGED_CERT_RSA_12, SC_N };
 static const char *SC_NAME[] = { "load_rsa", "load_ec_all", "new_sessions", "tls12_rsa", "tls12_ecdsa_cauth", "tls11_ecdhe_rsa", "tls12_resume_id", "tls12_resume_ticket",
-                                 "tls13_full", "tls13_psk_resume", "tls13_cauth", "dtls12_frag", "tls12_psk", "data_growth", "tls12_ticket_reissue", "tls13_hrr_sni", "tls12_ext_list", "tls13_ext_list", "ocsp_refresh",
+                                 "tls13_full", "tls13_psk_resume", "tls13_cauth", "dtls12_frag", "tls12_psk", "data_growth", "tls12_ticket_reissue", "tls13_hrr_sni", "tls12_ext_list", "tls13_ext_list", "ocsp_refresh", "load_pem_bundle",
                                  "neg_unknown_ca_12", "neg_unknown_ca_13", "neg_bad_sig_12", "neg_bad_sig_13", "neg_forged_cert_12", "neg_forged_cert_13", "neg_forged_cert_rsa_12" };
 static bool sc_negative(int s) { return s >= SC_NEG_UNKNOWN_CA_12; }
 
@@ -78,6 +78,21 @@ static ScOutcome run_scenario(const Plan &p, bool count_only) {
         int rc = 0; vsim_set_node(NODE_SERVER);
         sslKeys_t *k = load_keys(ks, &rc);
         o.first_error = rc; o.completed = k != nullptr;
+        o.allocs = vsim_alloc_count(); o.draws = vsim_entropy_draws();
+        disarm_fault();
+        if (k) { matrixSslDeleteKeys(k); }
+        o.fp.add((uint64_t) (int64_t) rc);
+        return o;
+    }
+    if (s == SC_LOAD_PEM_BUNDLE) {
+        // identity given as a PEM bundle (leaf + CA certificate in one buffer) with a PEM key: the multi-certificate PEM loop of psX509ParseCertData
+        // and its callers' clean-up when one member fails to parse
+        if (!count_only) { arm_fault(p); } else { vsim_alloc_arm(); vsim_entropy_arm(); }
+        const unsigned char *cb = nullptr, *kb = nullptr; size_t cn = 0, kn = 0; vsim_pem_bundle(&cb, &cn, &kb, &kn);
+        vsim_set_node(NODE_SERVER);
+        sslKeys_t *k = nullptr; int rc = matrixSslNewKeys(&k, nullptr);
+        if (rc >= 0) { rc = matrixSslLoadRsaKeysMem(k, cb, (int32) cn, kb, (int32) kn, cb, (int32) cn); }
+        o.first_error = rc; o.completed = rc >= 0;
         o.allocs = vsim_alloc_count(); o.draws = vsim_entropy_draws();
         disarm_fault();
         if (k) { matrixSslDeleteKeys(k); }
@@ -285,7 +300,7 @@ static RunResult c19_exec(const Plan &p) {
 }
 
 static ModuleRegistrar reg({ "C19", "fault", "fault_enumeration",
-    "21 fixed scenarios (key loading RSA / EC+CA bundle+PSK+ticket keys+TLS 1.3 PSK; session creation with options; full TLS 1.1/1.2/1.3 handshakes RSA / ECDHE-RSA / ECDHE-ECDSA, client auth, PSK; id-, ticket- and TLS 1.3 PSK-resumed handshakes; "
+    "22 fixed scenarios (key loading RSA / EC+CA bundle+PSK+ticket keys+TLS 1.3 PSK / PEM identity bundle with PEM key; session creation with options; full TLS 1.1/1.2/1.3 handshakes RSA / ECDHE-RSA / ECDHE-ECDSA, client auth, PSK; id-, ticket- and TLS 1.3 PSK-resumed handshakes; "
     "DTLS 1.2 with fragmentation; data exchange with buffer growth; seven must-fail authentication scenarios: unknown CA, corrupted key-exchange / CertificateVerify signature, forged certificate). Each scenario's allocations and entropy reads are counted fault-free, then EVERY allocation index is failed once "
     "(thorough; quick: every index of short scenarios, the first 600, a stride, and the first four occurrences of every allocation site of the long ones) and every entropy read is failed (hard error; thorough also short read and EINTR burst); plus seeded multi-fault sequences (2-4 faults, bursts). "
     "non-trivial = the injected fault actually fired; distinct = distinct (scenario, outcome history, fired count)",
